@@ -1,18 +1,22 @@
 """C08 - entity events: exactly once per committed change, none for undone work.
 
 Harness sub-command `c08` (store_c08.go): listeners of every registration style x change type x
-{sync, async} on every store, two commit actions per transaction, one tx-complete listener; histories
-through Db.Update and (separate stream) Db.Batch.  The observation of a transaction is
+{sync, async} on every store, one tx-complete listener, and per transaction a HOOK PROGRAM (HOOKS section
+of the case line): commit actions and pre-commit actions registered on the context before Db.Update /
+Db.Batch is called, inside the function and inside nested db.Update(ctx, ..) / db.Batch(ctx, ..) calls
+that join the running transaction; histories through Db.Update and (separate stream) Db.Batch.  The
+observation of a transaction is
 
-    TX R <op results> COMMIT|ROLLBACK [VETOED] EV:... LS:... CA:<n> TC:<n> ST <facts> |
+    TX R <op results> COMMIT|ROLLBACK [VETOED] EV:... LS:... CA:<label>:<n>.. PA:<label>:<n>.. TC:<n> ST <facts> |
 
 * oracle (independent of the Coq model): the expected event multiset of a committed transaction is
   computed here from the operations and the database facts before / after the transaction; every
   registration style must have received exactly those events (by change type), with the state the
-  database facts show; nothing may be delivered for a rolled-back transaction; commit actions and
-  tx-complete listeners run exactly once per committed transaction;
+  database facts show; nothing may be delivered for a rolled-back transaction; every registered commit
+  action, every registered pre-commit action and the tx-complete listener run exactly once per committed
+  transaction - wherever they were registered, however the function nests - and not for a rolled-back one;
 * correspondence: the same line is printed by the extracted machine (Store/Events.v run_tx_v,
-  delivered_to) and compared token by token (results, events, deliveries incl. state digests, hooks).
+  delivered_to; Store/TxHooks.v db_update for the program) and compared token by token (results, events, deliveries incl. state digests, hooks).
 """
 import json
 import os
@@ -71,10 +75,97 @@ def parse_tx(toks):
 
 
 def split_mode(case):
+    """-> (mode, hook programs or None, rest of the case line)"""
     mode = "upd"
+    progs = None
     if case.startswith("MODE "):
         _, mode, case = case.split(" ", 2)
-    return mode, case
+    if case.startswith("HOOKS "):
+        _, n, case = case.split(" ", 2)
+        parts = case.split(" ", int(n))
+        progs, case = parts[:int(n)], parts[int(n)]
+    return mode, progs, case
+
+
+# ------------------------------------------------------------------ hook programs (alphabet: store_c08.go c08Exec)
+def default_prog(tx):
+    return "|cp" + ("f" if tx["pcf"] else "") + "." * len(tx["ops"]) + "c"
+
+
+def prog_info(prog, mode):
+    """-> dict(commits {label: where}, pres {label: where}, nested, depth)"""
+    call = "Db.Batch" if mode == "bat" else "Db.Update"
+    start = prog.find("|")
+    commits, pres = {}, {}
+    nc = np_ = 0
+    stack = []
+    nested = depth = 0
+    for i, ch in enumerate(prog):
+        if i < start:
+            where = "on the context before %s opened the transaction" % call
+        elif stack:
+            where = "inside a nested %s(ctx, ..) joining the running transaction (depth %d)" % (
+                "Db.Batch" if stack[-1] == "b" else "Db.Update", len(stack))
+        else:
+            where = "inside the function passed to %s" % call
+        if ch == "c":
+            commits["c%d" % nc] = "registered " + where
+            nc += 1
+        elif ch in "pfq":
+            pres["p%d" % np_] = "registered " + where
+            if ch == "q":
+                commits["q%d" % np_] = "added by pre-commit action p%d (registered %s)" % (np_, where)
+            np_ += 1
+        elif ch in "ub" and i > start:
+            stack.append(ch)
+            nested += 1
+            depth = max(depth, len(stack))
+        elif ch == ")" and stack:
+            stack.pop()
+    return dict(commits=commits, pres=pres, nested=nested, depth=depth)
+
+
+def hook_counts(other, tag):
+    out = {}
+    for t in other:
+        if t.startswith(tag + ":"):
+            _, label, n = t.split(":")
+            out[label] = out.get(label, 0) + int(n)
+    return out
+
+
+def hook_oracle(mode, prog, a):
+    """commit actions, pre-commit actions, tx-complete listeners of one observed transaction against the
+    property: each registration exactly once per committed transaction, nothing for a rolled-back one"""
+    out = []
+    info = prog_info(prog, mode)
+    ca, pa = hook_counts(a["other"], "CA"), hook_counts(a["other"], "PA")
+    tc = sum(int(t[3:]) for t in a["other"] if t.startswith("TC:"))
+    shape = "program %s: %d nested Db.Update/Db.Batch calls, depth %d" % (prog, info["nested"], info["depth"])
+    if not a["commit"]:
+        if any(ca.values()) or tc:
+            out.append(("C08:commit-hook-after-rollback", "commit actions %s / tx-complete listeners (%d) ran for a rolled-back transaction (%s)" % (
+                {k: v for k, v in ca.items() if v}, tc, shape)))
+        if any(pa.values()):
+            # only printed when the function itself failed: runPreCommitActions must not have been reached
+            out.append(("C08:precommit-action-after-failed-body", "pre-commit actions %s ran although the transaction function returned an error (%s)" % (
+                {k: v for k, v in pa.items() if v}, shape)))
+        return out
+    bad = [(l, ca.get(l, 0)) for l in sorted(set(info["commits"]) | set(ca)) if ca.get(l, 0) != (1 if l in info["commits"] else 0)]
+    if bad:
+        l, n = bad[0]
+        out.append(("C08:commit-action-count", "commit action %s (%s) ran %d times after the commit, expected exactly once; all: %s (%s)" % (
+            l, info["commits"].get(l, "never registered"), n, bad[:6], shape)))
+    bad = [(l, pa.get(l, 0)) for l in sorted(set(info["pres"]) | set(pa)) if pa.get(l, 0) != (1 if l in info["pres"] else 0)]
+    if bad:
+        l, n = bad[0]
+        out.append(("C08:precommit-action-count", "pre-commit action %s (%s) ran %d times in the committed transaction, expected exactly once; all: %s (%s)" % (
+            l, info["pres"].get(l, "never registered"), n, bad[:6], shape)))
+    if tc != 1:
+        key = "C08:batch-no-txcomplete" if (mode == "bat" and tc == 0) else "C08:tx-complete-count"
+        out.append((key, "tx-complete listener ran %d times for one transaction committed through %s (%s)" % (
+            tc, "Db.Batch" if mode == "bat" else "Db.Update", shape)))
+    return out
 
 
 # ------------------------------------------------------------------ facts
@@ -174,15 +265,14 @@ def expected_events(sch, tx, pre, post):
     return exp
 
 
-def oracle(sch, mode, txs, io):
+def oracle(sch, mode, progs, txs, io):
     out = []
     prev = Facts([])
     for k, (ttoks, a) in enumerate(zip(txs, io)):
         tx = parse_tx(ttoks)
+        prog = progs[k] if progs and k < len(progs) else default_prog(tx)
         post = Facts(a["facts"])
         ls = [t for t in a["other"] if t.startswith("LS:")]
-        ca = sum(int(t[3:]) for t in a["other"] if t.startswith("CA:"))
-        tc = sum(int(t[3:]) for t in a["other"] if t.startswith("TC:"))
         late = [t for t in a["other"] if t.startswith("LATE:")]
         if "ASYNC-TIMEOUT" in a["other"]:
             out.append(("C08:async-timeout", "asynchronous listeners / commit actions did not arrive within 10 s", k))
@@ -191,16 +281,10 @@ def oracle(sch, mode, txs, io):
         if not a["commit"]:
             if a["events"] or ls:
                 out.append(("C08:events-after-rollback", "listeners ran for a rolled-back transaction: %s" % (a["events"] + ls)[:4], k))
-            if ca or tc:
-                out.append(("C08:commit-hook-after-rollback", "commit actions (%d) / tx-complete listeners (%d) ran for a rolled-back transaction" % (ca, tc), k))
+            out += [(key, desc, k) for key, desc in hook_oracle(mode, prog, a)]
             prev = post
             continue
-        if ca != 2:
-            out.append(("C08:commit-action-count", "2 commit actions registered, %d executions after the commit" % ca, k))
-        if tc != 1:
-            key = "C08:batch-no-txcomplete" if (mode == "bat" and tc == 0) else "C08:tx-complete-count"
-            out.append((key, "tx-complete listener ran %d times for a transaction committed through %s" % (
-                tc, "Db.Batch" if mode == "bat" else "Db.Update"), k))
+        out += [(key, desc, k) for key, desc in hook_oracle(mode, prog, a)]
         exp = expected_events(sch, tx, prev, post)
         got = Counter()
         for e in a["events"]:
@@ -256,25 +340,23 @@ def oracle(sch, mode, txs, io):
     return out
 
 
-def oracle_swallow(sch, txs, io):
+def oracle_swallow(sch, progs, txs, io):
     """stream swl: the caller swallows the veto of an entity constraint and commits.  A change vetoed in
     ProcessPreCommit of store S is rejected work: no listener of S may ever be told about it."""
     out = []
     for k, (ttoks, a) in enumerate(zip(txs, io)):
         tx = parse_tx(ttoks)
+        prog = progs[k] if progs and k < len(progs) else default_prog(tx)
         ls = [t for t in a["other"] if t.startswith("LS:")]
-        ca = sum(int(t[3:]) for t in a["other"] if t.startswith("CA:"))
-        tc = sum(int(t[3:]) for t in a["other"] if t.startswith("TC:"))
         if "ASYNC-TIMEOUT" in a["other"]:
             out.append(("C08:async-timeout", "asynchronous listeners / commit actions did not arrive within 10 s", k))
+        # a swallowed veto is not a failed function: the pre-commit actions of a PANIC / failed body are
+        # judged like everywhere else
+        out += [(key, desc, k) for key, desc in hook_oracle("upd", prog, a)]
         if not a["commit"]:
-            if a["events"] or ls or ca or tc:
-                out.append(("C08:events-after-rollback", "listeners / hooks ran for a rolled-back transaction: %s CA %d TC %d" % (
-                    (a["events"] + ls)[:4], ca, tc), k))
+            if a["events"] or ls:
+                out.append(("C08:events-after-rollback", "listeners ran for a rolled-back transaction: %s" % (a["events"] + ls)[:4], k))
             continue
-        if ca != 2 or tc != 1:
-            out.append(("C08:commit-action-count" if ca != 2 else "C08:tx-complete-count",
-                        "committed transaction: %d commit-action executions (2 registered), %d tx-complete runs" % (ca, tc), k))
         vetoed = set(tx["vetoes"])
         bad = [e for e in a["events"] if tuple(e.split(":")[1:4]) in vetoed]
         bad += [t for t in ls if tuple(t.split(":")[2:5]) in vetoed]
@@ -356,7 +438,7 @@ def main(argv):
     for idx, (case, i, m) in enumerate(zip(cases, impl, modl)):
         if not case.strip():
             continue
-        mode, plain = split_mode(case)
+        mode, progs, plain = split_mode(case)
         sch, txs = storefam.split_case(plain)
         io = storefam.parse_obs(i)
         mo = storefam.parse_obs(m) if mode != "swl" else []
@@ -366,18 +448,18 @@ def main(argv):
         if any(t["commit"] and len(t["events"]) > 1 for t in io):
             distinct.add(case)
         if mode == "swl":
-            for key, desc, k in oracle_swallow(sch, txs, io):
+            for key, desc, k in oracle_swallow(sch, progs, txs, io):
                 c.violation(key, desc, dict(case=case, impl=i, tx=k, gen=dict(gen, index=idx)))
             ntx += len(io)
             continue
         reported = False
-        for key, desc, k in oracle(sch, mode, txs, io):
+        for key, desc, k in oracle(sch, mode, progs, txs, io):
             c.violation(key, desc, dict(case=case, impl=i, model=m, tx=k, gen=dict(gen, index=idx)))
             reported = True
         if c.replay:
             for k, (a, b) in enumerate(zip(io, mo)):
-                vlib.log("REPLAY tx %d\n  impl : %s %s %s %s\n  model: %s %s %s %s" % (
-                    k, a["results"], "COMMIT" if a["commit"] else "ROLLBACK", a["events"], [t for t in a["other"] if not t.startswith("LS:")],
+                vlib.log("REPLAY tx %d program %s\n  impl : %s %s %s %s\n  model: %s %s %s %s" % (
+                    k, progs[k] if progs and k < len(progs) else "(default)", a["results"], "COMMIT" if a["commit"] else "ROLLBACK", a["events"], [t for t in a["other"] if not t.startswith("LS:")],
                     b["results"], "COMMIT" if b["commit"] else "ROLLBACK", b["events"], [t for t in b["other"] if not t.startswith("LS:")]))
                 d = compare(a, b)
                 if d:
@@ -400,7 +482,10 @@ def main(argv):
                      "of one entity per transaction; caller error 6%, failing pre-commit action 5%, veto 9%, blind operation 7%) over three schema "
                      "wirings, through Db.Update, a Db.Batch stream and a stream whose caller swallows constraint vetoes and commits (a vetoed change must "
                      "never be announced); 26 recording listeners per store (4 filtering styles x 3 change types x "
-                     "sync/async, typed and untyped constraint), 2 commit actions per transaction, 1 tx-complete listener; asynchronous deliveries "
+                     "sync/async, typed and untyped constraint), 1 tx-complete listener; per transaction a hook program: commit actions and pre-commit "
+                     "actions (succeeding, failing, adding a commit action) registered on the context before Db.Update/Db.Batch is called (75% / 65%), at the "
+                     "start and the end of the function (always) and inside 0-3 nested db.Update(ctx,..)/db.Batch(ctx,..) calls joining the running "
+                     "transaction (depth <= 3, possibly without operations), each registration counted on its own; asynchronous deliveries "
                      "awaited. Non-trivial: a history with a committed transaction that delivered more than one event; distinct by case text.")
     ks = sorted(set((0, len(cases) // 2, max(0, len(cases) - 1))))
     c.cov["samples"] = [dict(case=cases[k][:1200], impl=impl[k][:1200], model=modl[k][:1200]) for k in ks if k < len(cases)]
